@@ -294,6 +294,34 @@ func runC14(c *core.Check) {
 	c.Analysed("statement_end_lookaheads", nEnd)
 	c.Floor("stmt-end", 2)
 
+	// ---------- (4c) command-style calls vs. Go statements: XGo reads `f -x` (blank before, none after the operator) at
+	// statement level as the call f(-x). Of the operators it does this for, `<-` also starts a valid Go statement
+	// continuation: `ch <-v` is a send in Go
+	if cf := core.FindFuncDecl(x, "parser.checkCmd"); cf != nil {
+		ast.Inspect(cf.Body, func(n ast.Node) bool {
+			cc, ok := n.(*ast.CaseClause)
+			if !ok {
+				return true
+			}
+			tight := strings.Contains(nodeText(&ast.BlockStmt{List: cc.Body}), "unget(")
+			if !tight {
+				return true
+			}
+			for _, e := range cc.List {
+				if k := constOf(x.TypesInfo, e); k != nil {
+					// binary operators that can continue a Go *statement* whose left side is a complete expression statement start
+					conflict := k.Name() == "ARROW"
+					c.Decide(!conflict, "cmd-vs-go", k.Name(), e.Pos(), "`f "+k.Name()+"x` is not a valid Go statement, reading it as a command-style call loses nothing",
+						"`ch <-v` (a Go send statement written without a blank after the arrow) is parsed as the command-style call ch(<-v): a valid Go file parses to another tree")
+				}
+			}
+			return true
+		})
+	} else {
+		c.Bad("anchor", "parser.checkCmd", 0, "not found")
+	}
+	c.Floor("cmd-vs-go", 5)
+
 	// ---------- (5) the token stream: the scanner agrees with go/scanner on Go lexemes (rules shared with C16)
 	scannerAgreement(c, prog, false)
 }
